@@ -159,6 +159,9 @@ def iso_fold(rep, relpath, alphabets, T_expected_one=True, want_trans=False, lab
     rest = body[i:]
     b = match_stmts('V_c = E_init\nfor V_n in %s:\n    V_c = E_step\nreturn V_c' % num, rest)
     if b is None:
+        done = iso_weighted(rep, relpath, funcs, consts, fn, pre, rest, alphabets, want_trans, label)
+        if done is not None:
+            return done
         raise AnalysisError('%s:%d checksum() is not a fold `c = INIT; for n in number: c = STEP; return c`' % (relpath, fn.lineno))
     T = validate_wiring(rep, relpath, funcs)
     gen_name = 'calc_check_digit' if 'calc_check_digit' in funcs else 'calc_check_digits'
@@ -256,6 +259,177 @@ def iso_fold(rep, relpath, alphabets, T_expected_one=True, want_trans=False, lab
     return results
 
 
+def iso_weighted(rep, relpath, funcs, consts, fn, pre, rest, alphabets, want_trans, label):
+    """The checksum written as a weighted sum over the reversed number,
+         return sum(W(i) * val(n) for i, n in enumerate(reversed(number))) % M      (W periodic in i, or true powers)
+         return sum(w * val(n) for w, n in zip(WEIGHTS, reversed(number))) % M       (positions beyond the table drop out)
+    decided by Lemma 7 of sa/alg/LEMMAS.md on the weight function (position 0 = last character).  Returns None when the
+    function is not of this form either."""
+    import math
+    num = fn.args.args[0].arg
+    if len(rest) != 1 or not isinstance(rest[0], ast.Return):
+        return None
+    ba = match_expr('sum(E_w * E_v for V_i, V_n in enumerate(reversed(%s))) %% E_m' % num, rest[0].value)
+    bz = match_expr('sum(V_w * E_v for V_w, V_n in zip(E_ws, reversed(%s))) %% E_m' % num, rest[0].value)
+    if ba is None and bz is None:
+        return None
+    b = ba or bz
+    dfl = defaults(fn)
+    T = validate_wiring(rep, relpath, funcs)
+    gen_name = 'calc_check_digit' if 'calc_check_digit' in funcs else 'calc_check_digits'
+    gen = need(funcs, gen_name, relpath)
+    gbody = strip_doc(gen.body)
+    gdfl = defaults(gen)
+    results = {}
+    for alpha in alphabets:
+        env = dict(consts)
+        if 'alphabet' in dfl or len(fn.args.args) > 1:
+            pname = fn.args.args[1].arg
+            env[pname] = alpha if alpha is not None else dfl.get(pname)
+            symbols = list(env[pname])
+        else:
+            symbols = list(alpha)
+        lab = '%s alphabet=%r' % (label, ''.join(symbols))
+        try:
+            for st in pre:
+                env[st.targets[0].id] = ev(st.value, env)
+            M = ev(b['E_m'], env)
+            val = {}
+            for a in symbols:
+                e2 = dict(env)
+                e2[b['V_n'].id] = a
+                val[a] = ev(b['E_v'], e2) % M
+        except Undecidable as e:
+            raise AnalysisError('%s: cannot evaluate the weighted sum: %s' % (relpath, e))
+        # ---- the weight function
+        limit = None        # number of positions that have a weight at all (zip with a finite table)
+        if bz is not None:
+            try:
+                table = [w % M for w in ev(b['E_ws'], env)]
+            except Undecidable as e:
+                raise AnalysisError('%s: weight table cannot be evaluated: %s' % (relpath, e))
+            limit = len(table)
+            P = limit + 1
+            W = lambda i, table=table: table[i] if i < len(table) else 0
+        else:
+            ivar = b['V_i'].id
+            ew = b['E_w']
+            uses = [n for n in ast.walk(ew) if isinstance(n, ast.Name) and n.id == ivar]
+            par = {}
+            for n in ast.walk(ew):
+                for c in ast.iter_child_nodes(n):
+                    par[c] = n
+            period = None
+            powers = False
+            for u in uses:
+                p_ = par.get(u)
+                if isinstance(p_, ast.BinOp) and isinstance(p_.op, ast.Mod) and p_.left is u:
+                    try:
+                        k = ev(p_.right, env)
+                    except Undecidable:
+                        k = None
+                    if isinstance(k, int) and k > 0:
+                        period = k if period is None else period * k // math.gcd(period, k)
+                        continue
+                if isinstance(p_, ast.Call) and isinstance(p_.func, ast.Name) and p_.func.id == 'pow' and len(p_.args) == 3 and p_.args[1] is u:
+                    powers = True
+                    continue
+                if isinstance(p_, ast.BinOp) and isinstance(p_.op, ast.Pow) and p_.right is u:
+                    powers = True
+                    continue
+                raise AnalysisError('%s:%d the weight %s depends on the position in a way the rule cannot bound' % (relpath, fn.lineno, src(ew)))
+
+            def W(i, env=env, ew=ew, ivar=ivar, M=M):
+                e2 = dict(env)
+                e2[ivar] = i
+                return ev(ew, e2) % M
+            if powers:
+                # r ** i mod M is periodic with the multiplicative order of r once it is invertible; find the period by iteration
+                seq = [W(i) for i in range(2 * M + 2)]
+                per = next((k for k in range(1, M + 1) if all(seq[i] == seq[i + k] for i in range(M + 1))), None)
+                if per is None:
+                    raise AnalysisError('%s: the power weights are not periodic within the modulus' % relpath)
+                period = per if period is None else period * per // math.gcd(period, per)
+            if period is None:
+                period = 1
+            P = period
+        try:
+            ws = [W(i) for i in range(P + 1)]
+        except Undecidable as e:
+            raise AnalysisError('%s: weight expression cannot be evaluated: %s' % (relpath, e))
+        pos_name = lambda i: 'position %d from the right%s' % (i, '' if limit is not None else ' (and every %d-th after it)' % P if P > 1 else '')
+        if limit is not None:
+            rep.fail('ALG.SUB', relpath, 'checksum', '%s %s' % (lab, src(b['E_ws'])), fn.lineno,
+                     'zip() stops at the %d weights of the table: characters further than %d positions from the end never enter the checksum, '
+                     'any substitution there is undetected' % (limit, limit))
+        # ---- SUB / TRANS on the weights
+        for i in range(P if limit is None else limit):
+            bad = next(((a, c) for a in symbols for c in symbols if a < c and (ws[i] * (val[a] - val[c])) % M == 0), None)
+            rep.check(bad is None, 'ALG.SUB', relpath, 'checksum', '%s weight %d at %s' % (lab, ws[i], pos_name(i)), fn.lineno,
+                      'weight %d (mod %d) at %s gives %r and %r the same contribution: this single substitution is undetected'
+                      % (ws[i], M, pos_name(i), (bad or ('', ''))[0], (bad or ('', ''))[1]), what='%s: weight %d separates all symbols at %s' % (lab, ws[i], pos_name(i)))
+        if want_trans:
+            for i in range(P if limit is None else limit - 1):
+                d = (ws[i] - ws[i + 1]) % M
+                bad = next(((a, c) for a in symbols for c in symbols if a < c and (d * (val[a] - val[c])) % M == 0), None)
+                rep.check(bad is None, 'ALG.TRANS', relpath, 'checksum', '%s weights %d,%d at positions %d,%d' % (lab, ws[i], ws[i + 1], i, i + 1), fn.lineno,
+                          'the weights %d and %d of the adjacent positions %d and %d from the right (mod %d) do not separate %r and %r: swapping them is undetected'
+                          % (ws[i], ws[i + 1], i, i + 1, M, (bad or ('', ''))[0], (bad or ('', ''))[1]),
+                          what='%s: adjacent weights %d,%d differ invertibly' % (lab, ws[i], ws[i + 1]))
+        # ---- GEN: the generator sees only s = checksum(payload); after appending c the payload weights shift by one position
+        genv = dict(consts)
+        if len(gen.args.args) > 1:
+            genv[gen.args.args[1].arg] = alpha if alpha is not None else gdfl.get(gen.args.args[1].arg)
+        gnum = gen.args.args[0].arg
+        g = {}
+        for s_ in range(M):
+            hooks = {'checksum': (lambda *a, _s=s_, **k: _s)}
+            e2 = dict(genv)
+            e2[gnum] = ''
+            try:
+                out = None
+                for st in gbody:
+                    if isinstance(st, ast.Assign) and len(st.targets) == 1 and isinstance(st.targets[0], ast.Name):
+                        e2[st.targets[0].id] = ev(st.value, e2, hooks)
+                    elif isinstance(st, ast.Return):
+                        out = ev(st.value, e2, hooks)
+                        break
+                    else:
+                        raise Undecidable('statement %s' % type(st).__name__)
+            except Undecidable as e:
+                out = None
+            g[s_] = out if isinstance(out, str) and len(out) == 1 and out in val else None
+        # shift ratio k with W(i+1) = k W(i): then checksum(p + c) = k s + W(0) val(c)
+        ks = [k for k in range(M) if all((ws[i + 1] - k * ws[i]) % M == 0 for i in range(P))]
+        if not ks:
+            # two concrete payloads with the same checksum whose extensions differ
+            wit = None
+            for i in range(P):
+                for j in range(i + 1, P + 1 if limit is None else P):
+                    for a in symbols:
+                        for c in symbols:
+                            if val[a] and val[c] and (ws[i] * val[a] - ws[j % P if limit is None else j] * val[c]) % M == 0 \
+                                    and (ws[i + 1] * val[a] - (ws[(j + 1) % P] if limit is None else W(j + 1)) * val[c]) % M != 0:
+                                wit = wit or (i, a, j, c)
+            z = next((a for a in symbols if val[a] == 0), symbols[0])
+            rep.fail('ALG.GEN', relpath, gen_name, '%s weights %s' % (lab, ws[:P]), gen.lineno,
+                     'the weights are not in a constant ratio from one position to the next (%s), but the generator only knows checksum(payload): %s'
+                     % (ws[:P + 1], 'the payloads %r and %r have the same checksum and need different check characters'
+                        % (wit[1] + z * wit[0], wit[3] + z * wit[2]) if wit else 'appending a character shifts every payload weight by one position'))
+        else:
+            k = ks[0]
+            for s_ in range(M):
+                c = g[s_]
+                good = c is not None and (k * s_ + ws[0] * val[c]) % M == T
+                others = [a for a in symbols if (k * s_ + ws[0] * val[a]) % M == T and a != c]
+                rep.check(good and not others, 'ALG.GEN', relpath, gen_name, '%s state=%r' % (lab, s_), gen.lineno,
+                          'generated check character %r for payload checksum %r gives %r, accepted is %r; other accepted characters: %r'
+                          % (c, s_, (k * s_ + ws[0] * val[c]) % M if c is not None else None, T, others),
+                          what='%s: gen(%r) = %r is the unique accepted check character (shift ratio %d)' % (lab, s_, c, k))
+        results[''.join(symbols)] = (M, len(symbols))
+    return results
+
+
 # ---------------------------------------------------------------------------------- 97-10
 def mod_97_10(rep):
     relpath = 'stdnum/iso7064/mod_97_10.py'
@@ -279,16 +453,44 @@ def mod_97_10(rep):
     M = b['K_m'].value
     conv = need(funcs, b['V_f'].id, relpath)
     bb = match_stmts("return ''.join(str(int(V_x, K_b)) for V_x in %s)" % conv.args.args[0].arg, strip_doc(conv.body))
-    if bb is None:
-        raise AnalysisError('%s:%d %s() is not the per character base conversion' % (relpath, conv.lineno, conv.name))
-    base = bb['K_b'].value
     T = validate_wiring(rep, relpath, funcs)
-    symbols = list('0123456789ABCDEFGHIJKLMNOPQRSTUVWXYZ'[:base])
+    if bb is not None:
+        base = bb['K_b'].value
+        symbols = list('0123456789ABCDEFGHIJKLMNOPQRSTUVWXYZ'[:base])
+        expansion = {a: str(int(a, base)) for a in symbols}
+    else:
+        # any other per character expansion str(E(x)): tabulated with the whitelisted evaluator over the 36 symbols, and probed
+        # with characters outside them, for which it has to fail (the failure becomes InvalidFormat in validate's catch-all)
+        bb = match_stmts("return ''.join(str(E_v) for V_x in %s)" % conv.args.args[0].arg, strip_doc(conv.body))
+        if bb is None:
+            raise AnalysisError('%s:%d %s() is not the per character base conversion' % (relpath, conv.lineno, conv.name))
+        base = 36
+        symbols = list('0123456789ABCDEFGHIJKLMNOPQRSTUVWXYZ')
+        expansion = {}
+        env0 = dict(consts)
+        for a in symbols + list('+- .*az\u0663'):
+            e2 = dict(env0)
+            e2[bb['V_x'].id] = a
+            try:
+                v = str(ev(bb['E_v'], e2))
+            except Undecidable:
+                v = None
+            if a in symbols and v is None:
+                raise AnalysisError('%s:%d the expansion %s cannot be evaluated for the alphabet symbol %r' % (relpath, conv.lineno, src(bb['E_v']), a))
+            if a in symbols:
+                rep.check(v == str(int(a, 36)), 'ALG.expansion', relpath, conv.name, '%s for %r' % (src(bb['E_v']), a), conv.lineno,
+                          'the character %r expands to %r, ISO 7064 Mod 97-10 uses its base-36 value %d' % (a, v, int(a, 36)),
+                          what='%r -> %s' % (a, v))
+                expansion[a] = v if v is not None else str(int(a, 36))
+            elif v is not None and not (a in 'az' and v == str(int(a, 36))):
+                rep.fail('ALG.expansion', relpath, conv.name, '%s for %r' % (src(bb['E_v']), a), conv.lineno,
+                         'a character outside 0-9A-Z (%r) does not fail but contributes the text %r to the decimal expansion: numbers containing it '
+                         'can be accepted' % (a, v))
     kinds = {a: ('d' if a.isdigit() else 'l') for a in symbols}
     fsm = FSM(range(M), symbols)
     for s in range(M):
         for a in symbols:
-            v = str(int(a, base))
+            v = expansion[a]
             fsm.delta[0][(s, a)] = (s * 10 ** len(v) + int(v)) % M
     lab = 'mod %d, base-%d expansion' % (M, base)
     rep.check(all(M % p for p in range(2, int(M ** 0.5) + 1)) and M > 1, 'ALG.modulus-prime', relpath, 'checksum', 'int(...) %% %d' % M, ck.lineno,
@@ -329,11 +531,24 @@ def luhn(rep, ns):
     funcs, consts = load(relpath)
     ck = need(funcs, 'checksum', relpath)
     num, alpha = ck.args.args[0].arg, ck.args.args[1].arg
-    pat = ('V_n = len(%s)\n'
-           '%s = tuple(%s.index(V_i) for V_i in reversed(str(%s)))\n'
-           'return (sum(%s[::2]) + sum(E_dbl for V_j in %s[1::2])) %% V_n') % (alpha, num, alpha, num, num, num)
-    b = match_stmts(pat, strip_doc(ck.body))
-    if b is None:
+    body = strip_doc(ck.body)
+    # an optional fast path `if <condition on the alphabet>: <same shape with other expressions>` in front of the general code
+    fast = body[0] if body and isinstance(body[0], ast.If) and not body[0].orelse else None
+    pat = ('%s = tuple(E_val for V_i in reversed(str(%s)))\n'
+           'return (sum(%s[::2]) + sum(E_dbl for V_j in %s[1::2])) %% E_mod') % (num, num, num, num)
+
+    def shape(stmts):
+        pre = []
+        k = 0
+        while k < len(stmts) and isinstance(stmts[k], ast.Assign) and len(stmts[k].targets) == 1 and isinstance(stmts[k].targets[0], ast.Name) \
+                and stmts[k].targets[0].id != num:
+            pre.append(stmts[k])
+            k += 1
+        m_ = match_stmts(pat, stmts[k:])
+        return (pre, m_) if m_ is not None else None
+    general = shape(body[1:] if fast is not None else body)
+    fastshape = shape(fast.body) if fast is not None else None
+    if general is None or (fast is not None and fastshape is None):
         raise AnalysisError('%s:%d checksum() is not the reversed even/odd Luhn sum the rule understands' % (relpath, ck.lineno))
     T = validate_wiring(rep, relpath, funcs)
     gen = need(funcs, 'calc_check_digit', relpath)
@@ -355,35 +570,47 @@ def luhn(rep, ns):
         rep.check(probe == alph[0], 'ALG.GEN', relpath, 'calc_check_digit', 'placeholder for alphabet %r' % alph, gen.lineno,
                   'the generator appends %r as placeholder, the symbol of value 0 in this alphabet is %r: the residue it reads is not that of '
                   'payload + zero, so the generated character is rejected' % (probe, alph[0]), what='alphabet %r: placeholder %r' % (alph, probe))
-        env = {b['V_n'].id: n, alpha: alph}
+        env = dict(consts)
+        env[alpha] = alph
+        pre, b = general
+        if fast is not None:
+            try:
+                if ev(fast.test, env):
+                    pre, b = fastshape
+            except Undecidable as e:
+                raise AnalysisError('%s: the fast path condition %s cannot be evaluated for the alphabet %r: %s' % (relpath, src(fast.test), alph, e))
         try:
-            D = [ev(b['E_dbl'], dict(env, **{b['V_j'].id: v})) for v in range(n)]
+            for st in pre:
+                env[st.targets[0].id] = ev(st.value, env)
+            m = ev(b['E_mod'], env)
+            val = {a: ev(b['E_val'], dict(env, **{b['V_i'].id: a})) for a in alph}
+            D = {v: ev(b['E_dbl'], dict(env, **{b['V_j'].id: v})) for v in sorted(set(val.values()))}
         except Undecidable as e:
-            raise AnalysisError('%s: doubling expression cannot be tabulated: %s' % (relpath, e))
-        lab = 'luhn mod %d (%s)' % (n, alph[:6])
-        # machine: state (sum mod n, parity); reversed processing: parity 0 = plain, 1 = doubled
-        fsm = FSM([(s, p) for s in range(n) for p in (0, 1)], list(range(n)), period=1)
-        for s in range(n):
-            for v in range(n):
-                fsm.delta[0][((s, 0), v)] = ((s + v) % n, 1)
-                fsm.delta[0][((s, 1), v)] = ((s + D[v]) % n, 0)
+            raise AnalysisError('%s: the Luhn sum cannot be tabulated for the alphabet %r: %s' % (relpath, alph, e))
+        lab = 'luhn mod %d (%s)' % (m, alph[:6])
+        # machine: state (sum mod m, parity); reversed processing: parity 0 = plain, 1 = doubled
+        fsm = FSM([(s, p) for s in range(m) for p in (0, 1)], list(alph), period=1)
+        for s in range(m):
+            for a in alph:
+                fsm.delta[0][((s, 0), a)] = ((s + val[a]) % m, 1)
+                fsm.delta[0][((s, 1), a)] = ((s + D[val[a]]) % m, 0)
         und = fsm_checks(rep, relpath, fsm, lab, True)
         pairs = sorted(set(tuple(sorted((a, c))) for (_p, _s, a, c) in und))
-        expected = [(0, n - 1)]
-        rep.check(pairs == expected, 'ALG.LUHN-TRANS', relpath, 'checksum', lab, ck.lineno,
+        expected = [tuple(sorted((alph[0], alph[n - 1])))]
+        rep.check(set(pairs) <= set(expected), 'ALG.LUHN-TRANS', relpath, 'checksum', lab, ck.lineno,
                   'undetected adjacent transpositions are %r, documented exception is exactly %r' % (pairs[:6], expected),
                   what='%s: only the swap of symbols %r is undetected' % (lab, expected[0]))
         # generator: the appended character sits at reversed position 0 (plain)
-        for s in range(n):
+        for s in range(m):
             try:
                 ch = ev(g['E_pick'], {gen.args.args[1].arg: alph, g['V_ck'].id: s})
             except Undecidable as e:
                 ch = None
-            v = alph.index(ch) if isinstance(ch, str) and len(ch) == 1 and ch in alph else None
-            others = [w for w in range(n) if (s + w) % n == T and w != v]
-            rep.check(v is not None and (s + v) % n == T and not others, 'ALG.GEN', relpath, 'calc_check_digit', '%s ck=%d' % (lab, s), gen.lineno,
+            v = val[ch] if isinstance(ch, str) and len(ch) == 1 and ch in val else None
+            others = [w for w in alph if (s + val[w]) % m == T and w != ch]
+            rep.check(v is not None and (s + v) % m == T and not others, 'ALG.GEN', relpath, 'calc_check_digit', '%s ck=%d' % (lab, s), gen.lineno,
                       'for checksum(payload + alphabet[0]) == %d the generator picks %r, which gives residue %r instead of %r'
-                      % (s, ch, None if v is None else (s + v) % n, T), what='%s: residue %d -> %r' % (lab, s, ch))
+                      % (s, ch, None if v is None else (s + v) % m, T), what='%s: residue %d -> %r' % (lab, s, ch))
 
 
 # ---------------------------------------------------------------------------------- Verhoeff / Damm
